@@ -73,6 +73,7 @@ type Obs struct {
 	// wire identifiers of the message as sent, and the other state keys written during the op
 	WireID, WireTh, WirePth string
 	Fresh                   string
+	Repeated                bool
 	Written                 []string `json:"written,omitempty"`
 	Err                     string   `json:"err,omitempty"`
 	Tape                    []string `json:"tape,omitempty"`
@@ -156,6 +157,11 @@ type world struct {
 	events   chan service.StateMsg
 	pending  []service.DIDCommAction
 	evThread []string
+	clos     []bool
+	prov     *provider
+	payload  map[string]int
+	actCont  func(piid string, opt interface{}) error
+	actStop  func(piid string) error
 	disp     *dispatcher
 	regEv    func(chan<- service.StateMsg) error
 	unregEv  func(chan<- service.StateMsg) error
@@ -208,7 +214,21 @@ func newWorld(proto string, v3 bool) *world {
 		return nil
 	}
 
-	prov := &provider{m: w.msgr, s: rec}
+	w.prov = &provider{m: w.msgr, s: rec}
+	name := w.startService()
+
+	st, err := sp.OpenStore(name)
+	must(err)
+
+	w.store = st
+
+	return w
+}
+
+// startService creates a service instance over the world's stores and messenger (also used to RESTART the service).
+func (w *world) startService() string {
+	prov := w.prov
+	proto := w.proto
 
 	var name string
 
@@ -230,6 +250,14 @@ func newWorld(proto string, v3 bool) *world {
 			return e
 		}
 		w.barrier = svc.VerifBarrier
+		w.actCont = func(piid string, opt interface{}) error {
+			if o, ok := opt.(ic.Opt); ok {
+				return svc.ActionContinue(piid, o)
+			}
+
+			return svc.ActionContinue(piid)
+		}
+		w.actStop = func(piid string) error { return svc.ActionStop(piid, nil) }
 		w.regEv, w.unregEv = svc.RegisterMsgEvent, svc.UnregisterMsgEvent
 		svc.Use(func(next ic.Handler) ic.Handler {
 			return ic.HandlerFunc(func(md ic.Metadata) error {
@@ -268,6 +296,14 @@ func newWorld(proto string, v3 bool) *world {
 			return e
 		}
 		w.barrier = svc.VerifBarrier
+		w.actCont = func(piid string, opt interface{}) error {
+			if o, ok := opt.(pp.Opt); ok {
+				return svc.ActionContinue(piid, o)
+			}
+
+			return svc.ActionContinue(piid)
+		}
+		w.actStop = func(piid string) error { return svc.ActionStop(piid, nil) }
 		w.regEv, w.unregEv = svc.RegisterMsgEvent, svc.UnregisterMsgEvent
 		svc.Use(func(next pp.Handler) pp.Handler {
 			return pp.HandlerFunc(func(md pp.Metadata) error {
@@ -309,6 +345,11 @@ func newWorld(proto string, v3 bool) *world {
 			return e
 		}
 		w.barrier = svc.VerifBarrier
+		w.actCont = func(piid string, opt interface{}) error {
+			o, _ := opt.(introduce.Opt) //nolint:errcheck
+			return svc.ActionContinue(piid, o)
+		}
+		w.actStop = func(piid string) error { return svc.ActionStop(piid, nil) }
 		w.optOf = func(kind string) interface{} {
 			if kind == "recipients" {
 				return introduce.WithRecipients(&introduce.To{Name: "carol"}, &introduce.Recipient{
@@ -322,12 +363,7 @@ func newWorld(proto string, v3 bool) *world {
 		panic("unknown protocol " + proto)
 	}
 
-	st, err := sp.OpenStore(name)
-	must(err)
-
-	w.store = st
-
-	return w
+	return name
 }
 
 func must(err error) {
@@ -544,6 +580,13 @@ func (w *world) drainActions(t string, msg string) int {
 			w.evMsg = append(w.evMsg, msg)
 			w.live = append(w.live, true)
 			w.stale = append(w.stale, false)
+			w.clos = append(w.clos, true)
+
+			if w.payload == nil {
+				w.payload = map[string]int{}
+			}
+
+			w.payload[t] = len(w.pending) - 1
 			n++
 
 			continue
@@ -651,8 +694,51 @@ func (w *world) apply(op Op) (o Obs, staleEvent bool, bad string) {
 				}
 			}
 		}
+	case "restart":
+		// a new service instance over the same stores; callbacks handed out before are gone
+		w.startService()
+
+		for i := range w.clos {
+			w.clos[i] = false
+		}
+
+		o.Res, o.Ann, o.Pre, o.Post = "ok", []string{}, "start", "start"
+
+		return o, false, ""
+	case "continuep", "stopp":
+		key := thName(op.T)
+		w.written, w.seenPIID = nil, nil
+		o.Key = key
+		o.Pre = w.persistedKey(key)
+
+		var err error
+		if op.Kind == "continuep" {
+			err = w.actCont(key, w.optOf(op.Opt))
+		} else {
+			err = w.actStop(key)
+		}
+
+		switch {
+		case err != nil && strings.Contains(err.Error(), "get transitional payload"):
+			o.Res, o.Ann, o.Key, o.Post = "noevent", []string{}, "", o.Pre
+
+			return o, false, ""
+		case err != nil:
+			o.Res, o.Err = "err", err.Error()
+		default:
+			if ev, ok := w.payload[key]; ok {
+				staleEvent = w.stale[ev]
+				o.Repeated = !w.live[ev] // the event was already decided through its callback (API contract broken)
+				w.live[ev] = false
+			}
+
+			delete(w.payload, key)
+			w.barrier()
+
+			o.Res = "ok"
+		}
 	case "continue", "stop":
-		if op.Ev < 0 || op.Ev >= len(w.pending) || !w.live[op.Ev] {
+		if op.Ev < 0 || op.Ev >= len(w.pending) || !w.live[op.Ev] || !w.clos[op.Ev] {
 			o.Res = "noevent"
 			o.Ann = []string{}
 			o.Thread = -1
@@ -666,6 +752,11 @@ func (w *world) apply(op Op) (o Obs, staleEvent bool, bad string) {
 		o.Pre = w.persistedKey(t)
 		staleEvent = w.stale[op.Ev]
 		w.live[op.Ev] = false
+
+		// the callbacks delete the stored transitional payload of the instance (introduce: only Continue does)
+		if !(w.proto == "intro" && op.Kind == "stop") {
+			delete(w.payload, t)
+		}
 
 		if op.Kind == "continue" {
 			w.pending[op.Ev].Continue(w.optOf(op.Opt))
@@ -708,7 +799,8 @@ type verdict struct {
 // judge evaluates the property on one observed step.
 func judge(proto string, op Op, o Obs, stale bool, bad string) verdict {
 	sp := specs[proto]
-	if o.Res == "noevent" {
+	if o.Res == "noevent" || o.Repeated {
+		// nothing to decide / the same action event decided a second time: outside the API contract
 		return verdict{}
 	}
 
@@ -755,12 +847,12 @@ func judge(proto string, op Op, o Obs, stale bool, bad string) verdict {
 		return verdict{}
 	}
 
-	if stale && (op.Kind == "continue" || op.Kind == "stop") && (kind == "path" || kind == "terminal-left") {
+	if stale && isDecision(op) && (kind == "path" || kind == "terminal-left") {
 		return verdict{fail: true, sig: proto + ":stale-action-event", detail: detail}
 	}
 
 	// an injected fault made the listener abandon the thread after a terminal state had been announced
-	if (op.Kind == "continue" || op.Kind == "stop") && kind == "path" && op.Fault != "" {
+	if isDecision(op) && kind == "path" && op.Fault != "" {
 		seq := append([]string{o.Pre}, o.Ann...)
 		for i := 0; i+1 < len(seq); i++ {
 			if !sp.edge(seq[i], seq[i+1]) {
@@ -779,6 +871,10 @@ func judge(proto string, op Op, o Obs, stale bool, bad string) verdict {
 	}
 
 	return verdict{fail: true, sig: proto + ":" + kind, detail: detail}
+}
+
+func isDecision(op Op) bool {
+	return op.Kind == "continue" || op.Kind == "stop" || op.Kind == "continuep" || op.Kind == "stopp"
 }
 
 func specNamed(proto string, op Op, o Obs) bool {
@@ -910,6 +1006,12 @@ func coqCase(c *Case, obs []Obs) string {
 				coqFault(op, obs[i]), tape))
 		case "stop":
 			ops = append(ops, fmt.Sprintf("Stop %d%%nat %s %s", op.Ev, coqFault(op, obs[i]), tape))
+		case "continuep":
+			ops = append(ops, fmt.Sprintf("ContinueP %d %d %s %s", op.T, c09tab.Index(c09tab.Opts[c.Proto], op.Opt), coqFault(op, obs[i]), tape))
+		case "stopp":
+			ops = append(ops, fmt.Sprintf("StopP %d %s %s", op.T, coqFault(op, obs[i]), tape))
+		case "restart":
+			ops = append(ops, "Restart")
 		}
 
 		var ann []string
@@ -1071,7 +1173,7 @@ func runCase(tr *hx.Trace, kind string, c *Case, withCoq bool) (key string, last
 
 	for i := range w.pending {
 		if w.live[i] {
-			ks = append(ks, fmt.Sprintf("e%s:%s", w.evThread[i], w.evMsg[i]))
+			ks = append(ks, fmt.Sprintf("e%s:%s:%v", w.evThread[i], w.evMsg[i], w.clos[i]))
 		}
 	}
 
@@ -1082,6 +1184,7 @@ func runCase(tr *hx.Trace, kind string, c *Case, withCoq bool) (key string, last
 type evInfo struct {
 	idx int
 	msg string
+	t   int
 }
 
 // introRequestSeen: histories keep to at most one inbound request per introduce thread.  A second inbound request on a
@@ -1119,12 +1222,35 @@ func candidates(proto string, hist []Op, threads int, evs []evInfo, flags bool) 
 		}
 	}
 
+	restarted := false
+	for _, o := range hist {
+		restarted = restarted || o.Kind == "restart"
+	}
+
+	seenT := map[int]bool{}
+
 	for _, e := range evs {
 		for _, o := range c09tab.Opts[proto] {
 			ops = append(ops, Op{Kind: "continue", Ev: e.idx, Opt: o})
 		}
 
 		ops = append(ops, Op{Kind: "stop", Ev: e.idx})
+
+		// the same decisions through the API by protocol instance id (from the stored transitional payload)
+		if !seenT[e.t] {
+			seenT[e.t] = true
+
+			for _, o := range c09tab.Opts[proto] {
+				ops = append(ops, Op{Kind: "continuep", T: e.t, Opt: o})
+			}
+
+			ops = append(ops, Op{Kind: "stopp", T: e.t})
+		}
+	}
+
+	// the service is restarted (once per history) while decisions are open
+	if len(evs) > 0 && !restarted {
+		ops = append(ops, Op{Kind: "restart"})
 	}
 
 	return ops
@@ -1248,7 +1374,7 @@ func explore(tr *hx.Trace, proto string, v3 bool, depth, threads, twoUntil, faul
 				n2 := node{ops: c.Ops, nEv: nd.nEv}
 
 				// the same history observed by four channels, with every single scripted reaction
-				if d < subDepth && proto != "intro" {
+				if d < subDepth && proto != "intro" && op.Kind != "restart" {
 					for _, sc := range subScripts(4) {
 						sc2 := &Case{Proto: proto, V3: v3, Ops: c.Ops, Subs: 4, Script: sc}
 						runCase(tr, "exhaustive-subs", sc2, coqSubs < coqBudget)
@@ -1256,14 +1382,24 @@ func explore(tr *hx.Trace, proto string, v3 bool, depth, threads, twoUntil, faul
 					}
 				}
 
+				lastOfT := -1
 				for _, e := range nd.evs {
-					if !((op.Kind == "continue" || op.Kind == "stop") && op.Ev == e.idx) {
+					if e.t == op.T {
+						lastOfT = e.idx
+					}
+				}
+
+				for _, e := range nd.evs {
+					byClosure := (op.Kind == "continue" || op.Kind == "stop") && op.Ev == e.idx
+					byAPI := (op.Kind == "continuep" || op.Kind == "stopp") && res == "ok" && e.idx == lastOfT
+
+					if !byClosure && !byAPI {
 						n2.evs = append(n2.evs, e)
 					}
 				}
 
 				if res == "action" {
-					n2.evs = append(n2.evs, evInfo{idx: nd.nEv, msg: op.Msg})
+					n2.evs = append(n2.evs, evInfo{idx: nd.nEv, msg: op.Msg, t: op.T})
 					n2.nEv++
 				}
 
@@ -1317,6 +1453,15 @@ func randomCase(rng *hx.Rng, proto string, v3 bool, maxLen int) *Case {
 			c.Ops = append(c.Ops, Op{Kind: "continue", Ev: rng.Intn(nEv), Opt: opts[rng.Intn(len(opts))]})
 		default:
 			c.Ops = append(c.Ops, Op{Kind: "stop", Ev: rng.Intn(nEv)})
+		}
+
+		switch y := rng.Intn(14); {
+		case y == 0:
+			c.Ops = append(c.Ops, Op{Kind: "restart"})
+		case y == 1:
+			c.Ops = append(c.Ops, Op{Kind: "continuep", T: 1 + rng.Intn(threads), Opt: opts[rng.Intn(len(opts))]})
+		case y == 2:
+			c.Ops = append(c.Ops, Op{Kind: "stopp", T: 1 + rng.Intn(threads)})
 		}
 
 		if rng.Intn(6) == 0 {
